@@ -171,8 +171,6 @@ class C17(SolveProperty):
         # 1<->2, 2->3, 3->4, 4->3 : several SAT calls for PR/SST
         open(inst, "w").write("p af 5\n1 2\n2 1\n2 3\n3 4\n4 3\n4 5\n")
         problems = [("DS-PR", "3"), ("DC-CO", "3"), ("SE-ST", None), ("DC-SST", "4"), ("SE-ID", None)]
-        if tier == "quick":
-            problems = problems[:3]
         for (prob, arg) in problems:
             for kind in kinds:
                 for at in ([1, 2] if tier == "quick" else [1, 2, 3, 4]):
@@ -353,8 +351,16 @@ class C06(SolveProperty):
     certs = [0, 1]
     rule = ("(a) sequences of 2-5 queries (random order, repetitions, mixed SE/DC/DS, with and without certificate) on ONE solver object, every answer judged "
             "by the reference deciders and the SAT trace compared with the Lean programs run back to back; (b) the same queries through ExternalSatSolver "
-            "driving kissat; (c) all encodings x certificate flag; the framework is dumped before and after the queries; non-trivial = framework with an attack")
+            "driving kissat; (c) all encodings x certificate flag; the framework is dumped before and after the queries; (d) the command line: each (framework, problem, argument) "
+            "run under --encoding {default, aux_var, exp, hybrid} x {embedded, kissat through --external-sat-solver} x {with, without -c}: same status in all 16 runs, every "
+            "printed answer judged; non-trivial = framework with an attack")
     assumptions = SolveProperty.assumptions + ["kissat (external backend) assumed sound and complete; its replies cross-checked against the reference statuses"]
+    needs_bins = True
+
+    def extra(self, ctx):
+        import random
+        import props_cli
+        return props_cli.C05().config_matrix(ctx, random.Random(ctx["seed"] + 6))
 
     def cases(self, tier, rng):
         lines = []
